@@ -23,6 +23,14 @@ def ctree(d):
 
 
 COLLIDING = [(-1, -2), (0, 2**61 - 1), (1, 2**61), (2, 2**61 + 1)]
+# literal values that are equal (and hash equal) in Python but are different DSL literals (another kind)
+KINDRED = [(1, 1.0), (1, True), (0, False), (0, 0.0), (2, 2.0), (True, 1.0), (-2, -2.0)]
+KIND_NAMES = ['Boolean', 'Integer', 'Float', 'Decimal', 'String', 'Date', 'Timestamp']
+
+
+def same_structure(a, b):
+    """Structural identity of two descriptions (1, 1.0 and True are different atoms although Python calls them equal)."""
+    return core.canon(a) == core.canon(b)
 
 
 def leaves(d, path=()):
@@ -63,9 +71,11 @@ class C08(core.Prop):
     RULE = (
         'pairs of DSL objects (features, joins, references, queries with all clauses, set operations): the same description '
         'built twice, and descriptions differing in exactly one leaf (literal value incl. pairs whose Python hashes collide: '
-        '-1/-2, 0/2^61-1, 1/2^61; operator; alias; direction; column; join kind; row limit), with unrelated objects '
+        '-1/-2, 0/2^61-1, 1/2^61, and literals equal in Python but of another kind: 1/1.0/True, 0/0.0/False; operator; alias; direction; column; join kind; row limit), with unrelated objects '
         'created first; observed ==, hash equality, set size, dict lookup, pickle round trip (in-process and into a fresh '
-        'interpreter with another hash seed), and that cached item access returns each statement its own parts. '
+        'interpreter with another hash seed), and that cached item access returns each statement its own parts; the '
+        'primitive kinds instantiated in random orders (Date before Timestamp and the reverse) in fresh interpreters and '
+        'compared pairwise, also inside Array and Field and after pickling. '
         'Non-trivial = a pair differing in a hash-colliding literal, or a query pair.'
     )
     ASSUMPTIONS = [
@@ -141,6 +151,22 @@ class C08(core.Prop):
                 other[rng.randrange(len(other))][1] = 'bool'
             wrap = rng.choice(['schema', 'stable', 'squery'])
             out.append({'a': [wrap, fields], 'b': [wrap, other], 'noise': []})
+        for k in range(4 if tier == 'quick' else 12):
+            # the primitive kinds instantiated in a random order in a fresh interpreter
+            order = list(KIND_NAMES)
+            rng.shuffle(order)
+            if k == 0:
+                order = ['Date', 'Timestamp'] + [n for n in order if n not in ('Date', 'Timestamp')]
+            if k == 1:
+                order = ['Timestamp', 'Date'] + [n for n in order if n not in ('Date', 'Timestamp')]
+            out.append({'order': order, 'hashseed': rng.randint(0, 9999), 'a': ['kinds'], 'b': ['kinds']})
+        for x, y in KINDRED:
+            out.append({'a': ['lit', x], 'b': ['lit', y], 'noise': []})
+            out.append({'a': ['lit', y], 'b': ['lit', x], 'noise': [['lit', x]]})
+            if not isinstance(x, bool) and not isinstance(y, bool):
+                out.append({'a': ['bin', '*', ['col', 'A', 'x'], ['lit', x]], 'b': ['bin', '*', ['col', 'A', 'x'], ['lit', y]], 'noise': []})
+                q = lambda v: ['query', ['table', 'A'], {'sel': [['alias', ['bin', '+', ['col', 'A', 'x'], ['lit', v]], 'c']], 'pre': ['bin', '<', ['col', 'A', 'y'], ['lit', v]], 'grp': [], 'post': None, 'ord': [], 'rows': None}]
+                out.append({'a': q(x), 'b': q(y), 'noise': []})
         for x, y in COLLIDING:
             out.append({'a': ['lit', x], 'b': ['lit', y], 'noise': []})
             out.append({'a': ['bin', '+', ['col', 'A', 'x'], ['lit', x]], 'b': ['bin', '+', ['col', 'A', 'x'], ['lit', y]], 'noise': []})
@@ -153,7 +179,7 @@ class C08(core.Prop):
 
         obs = [impl.observe(c) for c in cases]
         # identity across processes (pickled here, compared in a fresh interpreter under another hash seed)
-        sample = [c for c, o in zip(cases, obs) if 'error' not in o][:: max(1, len(cases) // 60)]
+        sample = [c for c, o in zip(cases, obs) if 'error' not in o and 'order' not in c][:: max(1, len(cases) // 60)]
         verdicts = impl.cross_process(sample)
         keyed = {core.canon(c['a']): v for c, v in zip(sample, verdicts)}
         for c, o in zip(cases, obs):
@@ -162,6 +188,8 @@ class C08(core.Prop):
         return obs
 
     def coq_case(self, case, obs):
+        if 'order' in case:
+            return None  # kinds are atoms of the skeleton: judged by the oracle
         if 'error' in obs:
             return None  # invalid description (a mutation may violate the grammar): nothing to compare
         return (f"(C08.CPair {ctree(case['a'])} {ctree(case['b'])} {cb(obs['eq'])} {cb(obs['hash_eq'])} {cn(obs['set'])} "
@@ -170,7 +198,18 @@ class C08(core.Prop):
     def oracle(self, case, obs):
         if 'error' in obs:
             return None if 'GrammarError' in obs['error'] or 'AttributeError' in obs['error'] or 'KeyError' in obs['error'] else f"raised {obs['error']}"
-        same = case['a'] == case['b']
+        if 'order' in case:
+            names = sorted(case['order'])
+            if obs['cls'] != {n: n for n in names}:
+                return f"kinds instantiated in the order {case['order']} are instances of {obs['cls']}"
+            for what in ('eq', 'again', 'hash', 'array', 'field', 'pickle'):
+                if obs[what] != {n: [n] for n in names}:
+                    bad = {n: v for n, v in obs[what].items() if v != [n]}
+                    return f"kinds instantiated in the order {case['order']}: {what} relates {bad} (each kind must equal itself only)"
+            if obs['keys'] != len(names):
+                return f"{len(names)} kinds occupy {obs['keys']} mapping keys"
+            return None
+        same = same_structure(case['a'], case['b'])
         if obs['eq'] != same:
             return f"objects built from {'the same' if same else 'different'} structure compare {'equal' if obs['eq'] else 'unequal'}"
         if same and not obs['hash_eq']:
@@ -189,13 +228,13 @@ class C08(core.Prop):
 
     def nontrivial(self, case, obs):
         flat = core.canon(case['a']) + core.canon(case['b'])
-        return case['a'][0] == 'query' or any(str(v) in flat for pair in COLLIDING for v in pair if abs(v) > 2)
+        return 'order' in case or case['a'][0] == 'query' or any(str(v) in flat for pair in COLLIDING for v in pair if abs(v) > 2)
 
     def distribution(self, cases, observations):
         dist = {'identical_pairs': 0, 'one_leaf_pairs': 0, 'queries': 0, 'invalid_after_mutation': 0, 'cross_process_checked': 0}
         for c, o in zip(cases, observations):
-            dist['identical_pairs'] += c['a'] == c['b']
-            dist['one_leaf_pairs'] += c['a'] != c['b']
+            dist['identical_pairs'] += same_structure(c['a'], c['b'])
+            dist['one_leaf_pairs'] += not same_structure(c['a'], c['b'])
             dist['queries'] += c['a'][0] == 'query'
             dist['invalid_after_mutation'] += 'error' in o
             dist['cross_process_checked'] += 'cross_process' in o
